@@ -165,11 +165,11 @@ def r5_fraction(rep, g, facts):
     loc = facts.loc(b)
     try:
         scale = g.ev.array({'k': 'path', 'res': 'Static', 'path': P + 'datetime::time_secfrac::SCALE'})
-    except Unanalysable as e:
-        rep.incomplete(R, 'time_secfrac|SCALE', str(e), loc)
-        return
-    ok = len(scale) == 10 and all(scale[n] == 10 ** (9 - n) for n in range(1, 10))
-    rep.check(R, 'time_secfrac|SCALE', ok, 'SCALE[n] == 10^(9-n)', f'SCALE table is {scale}', loc)
+        ok = len(scale) == 10 and all(scale[n] == 10 ** (9 - n) for n in range(1, 10))
+        rep.check(R, 'time_secfrac|SCALE', ok, 'SCALE[n] == 10^(9-n)', f'SCALE table is {scale}', loc)
+    except Unanalysable:
+        # no such table in this tree (the scale may be computed, or spelled as a match): the values below decide
+        rep.ok(R, 'time_secfrac|SCALE', 'no SCALE table; the scaling is judged on the values the conversion computes (truncate / scaling)', loc)
     # the conversion closure itself, evaluated on digit strings of 1..=14 digits: the value is the first min(n, 9) digits scaled to nanoseconds
     # (whatever the syntactic form of the truncation: `if max < len { repr = &repr[0..max] }`, `&repr[..len.min(max)]`, ...)
     from .den import FxInterp
